@@ -294,7 +294,7 @@ as a mismatch: AllMatches drops the site, BestMatch reports 3 errors for a budge
 
 func init() {
 	register(&Rule{
-		ID: "OBL", Props: []string{"C10"}, Min: 1,
+		ID: "OBL", Props: []string{"C10"}, Min: 3,
 		Doc: `"every reported span … its reported error count equals the edit distance between the pattern and that span": the C automaton honours the obligatory positions (#): no error on them. The Go
 re-alignment of an indel hit (LocatePatternFunc fed by ApatPattern.accepts) works on the compiled pattern masked by PATMASK, which drops the obligatory bit: unless the Go side of pkg/obiapat reads that
 information somewhere (the constant OBLIBIT or the field omask of the C pattern), the re-alignment may place an error on an obligatory position — the span and the error count reported contradict the
@@ -327,6 +327,91 @@ pattern (GGGCAATCCTGAGCCAG# reported on gggcaatcctgagccaT with 1 error, where th
 					}
 					return true
 				})
+			}
+			// (2) every re-alignment is handed the obligatory positions; (3) the aligner consults them for the two errors that
+			// touch a column (substitution, deletion) of each of its cell computations, and for the first row
+			key2 := "pkg/obiapat:re-alignments-are-handed-the-obligatory-positions"
+			calls, handed := 0, 0
+			for _, f := range p.Syntax {
+				ast.Inspect(f, func(n ast.Node) bool {
+					if x, ok := n.(*ast.CallExpr); ok {
+						if fn := callee(info, x); fn != nil && fn.Name() == "LocatePatternFunc" {
+							calls++
+							if sig, ok := fn.Type().(*types.Signature); ok && sig.Variadic() && len(x.Args) >= sig.Params().Len() {
+								handed++
+							}
+						}
+					}
+					return true
+				})
+			}
+			if calls > 0 {
+				if handed == calls {
+					s.Pass(nil, key2, realign, fmt.Sprintf("%d calls of LocatePatternFunc, each with the obligatory positions", calls))
+				} else {
+					s.Fail(nil, key2, realign, fmt.Sprintf("%d of the %d calls of LocatePatternFunc are not handed the obligatory positions of the pattern: the hit is re-aligned as if the pattern had none — a substitution or a deletion may land on a # position", calls-handed, calls))
+				}
+			}
+			if fd, ap := c.FindFunc("pkg/obialign", "LocatePatternFunc"); fd != nil && fd.Type.Params != nil {
+				ainfo := ap.TypesInfo
+				key3 := "pkg/obialign.LocatePatternFunc:obligatory-positions-consulted-by-every-cell"
+				params := flattenParams(fd.Type.Params)
+				var sameObj, obligParam types.Object
+				for _, prm := range params {
+					if prm == nil {
+						continue
+					}
+					o := ainfo.ObjectOf(prm)
+					switch t := o.Type().Underlying().(type) {
+					case *types.Signature:
+						if t.Params().Len() == 2 {
+							sameObj = o
+						}
+					case *types.Slice:
+						if _, isSig := t.Elem().Underlying().(*types.Signature); isSig {
+							obligParam = o
+						}
+					}
+				}
+				if sameObj != nil && obligParam != nil {
+					// the local the variadic parameter is unpacked into (a func(int) bool variable assigned from it), or the parameter itself
+					obligVars := map[types.Object]bool{}
+					ast.Inspect(fd.Body, func(n ast.Node) bool {
+						if as, ok := n.(*ast.AssignStmt); ok && len(as.Lhs) == 1 && len(as.Rhs) == 1 {
+							if id, ok := as.Lhs[0].(*ast.Ident); ok {
+								if o := ainfo.ObjectOf(id); o != nil {
+									if sig, isSig := o.Type().Underlying().(*types.Signature); isSig && sig.Params().Len() == 1 {
+										obligVars[o] = true
+									}
+								}
+							}
+						}
+						return true
+					})
+					nsame, noblig := 0, 0
+					ast.Inspect(fd.Body, func(n ast.Node) bool {
+						if x, ok := n.(*ast.CallExpr); ok {
+							if id, ok := ast.Unparen(x.Fun).(*ast.Ident); ok {
+								o := ainfo.ObjectOf(id)
+								if o == sameObj {
+									nsame++
+								}
+								if obligVars[o] {
+									noblig++
+								}
+							}
+						}
+						return true
+					})
+					switch {
+					case nsame == 0:
+						s.Undecided(nil, key3, fd.Pos(), "no call of the match function found in the aligner")
+					case noblig >= 2*nsame+1:
+						s.Pass(nil, key3, fd.Pos(), fmt.Sprintf("%d cell computations (calls of the match function), the obligatory positions consulted %d times (substitution and deletion of each, and the first row)", nsame, noblig))
+					default:
+						s.Fail(nil, key3, fd.Pos(), fmt.Sprintf("the aligner computes its cells in %d places and consults the obligatory positions %d times: each place has two errors that touch the column — a substitution and a deletion — and the first row deletes the head of the pattern: at least %d consultations are needed; with one missing, that error lands on a # position for free", nsame, noblig, 2*nsame+1))
+					}
+				}
 			}
 			switch {
 			case !realign.IsValid():
